@@ -3,6 +3,7 @@ import Kaira.Verbs16
 import Kaira.Verbs17
 import Kaira.VerbsMod
 import Kaira.VerbsFec
+import Kaira.VerbsChan
 open Kaira
 
 structure DState where
@@ -34,6 +35,7 @@ def dispatch (st : DState) (line : String) : DState × String :=
       let toks := verb :: args
       let r := firstSome [
         fun _ => Verbs.cfec st.codes toks,
+        fun _ => Verbs.cbin toks,
         fun _ => natVerb verb args,
         fun _ => Verbs.c16 toks,
         fun _ => Verbs.c17 toks,
